@@ -22,7 +22,8 @@ type Scenario struct {
 	Mode     explore.Mode `json:"mode"`
 	Bound    int          `json:"bound"`
 	MaxSteps int          `json:"max_steps"`
-	Weight   int          `json:"-"` // rough relative cost, for grouping into units
+	Postpone bool         `json:"postpone,omitempty"` // sticky delays (vsched.Options.Postpone)
+	Weight   int          `json:"-"`                  // rough relative cost, for grouping into units
 }
 
 // Verdict is one oracle failure of one execution.
@@ -116,7 +117,7 @@ func Main(t *testing.T, h Harness) {
 			conts = append(conts, unit{Scenario: sc.Name, Stack: orRoot(stack)})
 			return
 		}
-		cfg := explore.Config{Mode: sc.Mode, Bound: sc.Bound, MaxSteps: sc.MaxSteps, MaxExecs: budget, MemCapMB: 3000, Deadline: deadline, Stack: stack}
+		cfg := explore.Config{Mode: sc.Mode, Bound: sc.Bound, MaxSteps: sc.MaxSteps, MaxExecs: budget, MemCapMB: 3000, Deadline: deadline, Stack: stack, Postpone: sc.Postpone}
 		st := explore.Run(t, cfg,
 			func(o vsched.Options) (*vsched.Sched, any) { return h.Exec(t, sc, o) },
 			func(s *vsched.Sched, obs any, cost int) {
@@ -247,7 +248,7 @@ func confirm(t *testing.T, h Harness, res *report.Result, sc Scenario, s *vsched
 	choices := s.Choices()
 	var trace []vsched.Step
 	for k := 0; k < 5; k++ {
-		s2, obs2 := h.Exec(t, sc, vsched.Options{Prefix: choices, MaxSteps: sc.MaxSteps, Trace: true})
+		s2, obs2 := h.Exec(t, sc, vsched.Options{Prefix: choices, MaxSteps: sc.MaxSteps, Trace: true, Postpone: sc.Postpone})
 		found := false
 		for _, v2 := range h.Check(sc, s2, obs2) {
 			if v2.Property == v.Property && v2.Clause == v.Clause && v2.Site == v.Site {
@@ -280,7 +281,7 @@ func replay(t *testing.T, h Harness, res *report.Result, path string) {
 		t.Fatal(err)
 	}
 	rp := f.Replay
-	s, obs := h.Exec(t, rp.Scenario, vsched.Options{Prefix: rp.Choices, MaxSteps: rp.Scenario.MaxSteps, Trace: true})
+	s, obs := h.Exec(t, rp.Scenario, vsched.Options{Prefix: rp.Choices, MaxSteps: rp.Scenario.MaxSteps, Trace: true, Postpone: rp.Scenario.Postpone})
 	for _, st := range s.Trace {
 		fmt.Printf("  %4d  t%-3d %-10s %-34s %s\n", st.I, st.Thread, st.Op, st.At, st.Name)
 	}
